@@ -162,3 +162,30 @@ func verifHarness_C07_apply() {
 		verifAssert(verifAnd(got.Index == l.Index, got.Term == l.Term, m.Type == msg.Type, vSameMessage(&m, &msg)), "log-copy-holds-the-entry-as-applied")
 	}
 }
+
+// C07 (replay half, real code): FSM.applyRobustMessage on an entry that is
+// marked as message of death has no effect except that the session's
+// duplicate-detection marker advances — on the live path (output stream
+// present) and on the compaction replay of FSM.Snapshot (temporary server,
+// nil output stream) alike, so that a retry of the poisonous message is
+// refused after a restore from the snapshot too.
+func verifHarness_C07_modreplay() {
+	i := ircserver.NewIRCServer("robustirc.net", time.Unix(0, 1))
+	sid := robust.Id{Id: nondetU64()}
+	verifAssume(sid.Id != 0)
+	verifAssume(i.CreateSession(sid, "auth", time.Unix(0, 2)) == nil)
+	var o *outputstream.OutputStream
+	live := nondetBool()
+	if live {
+		o, _ = outputstream.NewOutputStream("")
+	}
+	msg := vMessage()
+	msg.Type = robust.MessageOfDeath
+	msg.Session = sid
+	fsm := &FSM{}
+	verifCaseLabel("message-of-death live=" + vB(live))
+	verifAssert(fsm.applyRobustMessage(&msg, i, o) == nil, "message-of-death-step-returns-no-error")
+	verifAssert(i.LastPostMessage(sid) == msg.ClientMessageId, "message-of-death-advances-the-duplicate-marker")
+	_, serr := i.GetSession(sid)
+	verifAssert(serr == nil, "message-of-death-keeps-the-session")
+}
